@@ -126,6 +126,10 @@ class Prov:
                         for lab in self.of_op(arg):
                             if isinstance(lab, tuple) and lab[0] == "CL":
                                 self.closure_item[lab[1]] = (last, frozenset(a0))
+                        # a named function handed to the combinator instead of a closure
+                        if isinstance(arg, dict) and arg.get("k") == "const" and "fn" in arg:
+                            f = arg["fn"]
+                            self.closure_item[("FN", f.get("resolved") or f["path"])] = (last, frozenset(a0))
                 elif last in PASS0:
                     changed |= self._add(d, a0)
 
@@ -157,6 +161,8 @@ def analyse(lib, fid, targets=None):
     if b is None:
         return None, [], []
     top = Prov(lib, b, {1: {"S"}, 2: {"O"}})
+    from ..owners import for_crate
+    helper_ids = {hb.id for hb in for_crate(lib).members(fid) if "{closure#" not in hb.id and hb.id != fid}
     provs = {b.id: top}
     work = [top]
     while work:
@@ -172,6 +178,20 @@ def analyse(lib, fid, targets=None):
             q = Prov(lib, cb, seed)
             provs[cid] = q
             work.append(q)
+        # private helpers that belong to fid alone (functions that did not exist when the rule was reviewed): entered with the
+        # labels of the arguments at the call site, or - when handed to a combinator by name - with the labels of the items
+        for c in p.b.calls:
+            if c.callee in helper_ids and c.callee not in provs:
+                hb = lib.body(c.callee)
+                q = Prov(lib, hb, {i + 1: set(p.of_op(a)) for i, a in enumerate(c.args)})
+                provs[c.callee] = q
+                work.append(q)
+        for key, how in list(p.closure_item.items()):
+            if isinstance(key, tuple) and key[0] == "FN" and key[1] in helper_ids and key[1] not in provs:
+                hb = lib.body(key[1])
+                q = Prov(lib, hb, {1: set(how[1])})
+                provs[key[1]] = q
+                work.append(q)
     calls = []
     combs = []
     for bid, p in provs.items():
@@ -195,6 +215,7 @@ def run(ctx):
     b, calls, combs = analyse(lib, TM)
     if not res.anchor(b is not None, TM):
         return res
+    analyse_provs_tm = dict(analyse.last_provs)
     res.floor(len(calls), 6, "comparisons in Type::matches")
     for cb, c, a0, a1 in calls:
         n += 1
@@ -230,7 +251,7 @@ def run(ctx):
         else:
             res.broken.append("Type::matches: iterator combinator over something that is neither operand (%s)" % sorted(flat(recv)))
     res.floor(len(combs), 3, "all/any in Type::matches")
-    if len([c for c in b.calls if c.path.endswith("::len")]) >= 2:
+    if len([c for q in analyse_provs_tm.values() for c in q.b.calls if c.path.endswith("::len")]) >= 2:
         res.ok("variance:tuple|arity", b.where(), "tuple lengths compared")
     else:
         res.bad("variance:tuple|arity", "Type::matches no longer compares the lengths of two tuple types (zip stops at the shorter one: (int, int) "
